@@ -9,6 +9,23 @@ from vlib import enc
 _SHARED = {}
 
 
+_SHARED_A = {}
+
+
+def _climate_anom(cls_name, data, **kw):
+    """The same classes on a shared ClimateData that was told the data ARE anomalies already (they are not centred:
+    small non-negative integers) - a correlation statistic centres its input itself."""
+    import pyunicorn.climate as cl
+    from pyunicorn.core import GeoGrid
+    T, N = data.shape
+    key = id(data)
+    if _SHARED_A.get("key") != key:
+        grid = GeoGrid(np.arange(float(T)), np.linspace(0.0, 20.0, N), np.linspace(0.0, 40.0, N), silence_level=3)
+        _SHARED_A.clear()
+        _SHARED_A.update(key=key, data=data, cd=cl.ClimateData(data.copy(), grid, 1, anomalies=True, silence_level=3))
+    return getattr(cl, cls_name)(_SHARED_A["cd"], threshold=0.1, winter_only=False, silence_level=3, **kw)
+
+
 def _climate(cls_name, data, **kw):
     """All climate classes of one case are derived from ONE shared ClimateData object (as a user would),
     in the order Spearman, Tsonis, partial correlation: each must see the data, not what another left."""
@@ -85,6 +102,9 @@ def run_case(c):
     put("spearman", lambda: enc.arr(_climate("SpearmanClimateNetwork", data).similarity_measure()))
     put("tsonis", lambda: enc.arr(_climate("TsonisClimateNetwork", data).correlation()))
     put("partial", lambda: enc.arr(_climate("PartialCorrelationClimateNetwork", data).similarity_measure()))
+    put("spearman_anom", lambda: enc.arr(_climate_anom("SpearmanClimateNetwork", data).similarity_measure()))
+    put("tsonis_anom", lambda: enc.arr(_climate_anom("TsonisClimateNetwork", data).correlation()))
+    put("partial_anom", lambda: enc.arr(_climate_anom("PartialCorrelationClimateNetwork", data).similarity_measure()))
     # binned mutual information of the climate network (histogram kernel over all pairs): of the data and of
     # the reordered data set (a separate shared data object)
     put("mi", lambda: enc.arr(_climate("MutualInfoClimateNetwork", data).similarity_measure()))
@@ -121,6 +141,9 @@ def run_case(c):
         put("tmi4", lambda: enc.arr(Surrogates.test_mutual_information(orig.copy(), surr.copy(), n_bins=4)))
     for key in ("tpear", "tmi2", "tmi4", "partial", "mi", "mi_perm"):
         o.setdefault(key, [[0] * 3] * 3)
+    for key in ("partial", "tsonis", "spearman"):
+        if key + "_anom" not in o and key + "_anom" not in o["x"]:
+            o[key + "_anom"] = o.get(key, [])
     for key in ("maxv2", "maxl2", "all2"):
         o.setdefault(key, o.get({"maxv2": "maxv", "maxl2": "maxl", "all2": "all"}[key], []))
     for key in ("all", "maxv", "maxl", "symv", "syml", "gauss", "bin2", "bin2max", "gaussmax", "pure0", "tsonis", "spearman", "all_aff", "all_perm",
